@@ -263,7 +263,7 @@ contract('Queue._perm_fail', module=M, props=['C01', 'C13'],
              'implies(bool(envelope.sender), len(self.bounces) == old(len(self.bounces)) + 1 '
              '        and self.bounces[len(self.bounces) - 1] == (envelope, reply))',
              'implies(not bool(envelope.sender), len(self.bounces) == old(len(self.bounces)))',
-             'forall(range(0, old(len(self.bounces))), lambda j: self.bounces[j] == old(seq(self.bounces))[j])',
+             'forall(range(0, old(len(self.bounces))), lambda j: same(self.bounces[j], old(seq(self.bounces))[j]))',
              'implies(id is not None, cast(id, Str) in self.removed and cast(id, Str) not in self.active_ids)',
              'implies(id is None, setv(self.removed) == old(setv(self.removed)) '
              '        and setv(self.active_ids) == old(setv(self.active_ids)) '
@@ -302,6 +302,9 @@ contract('Queue._split_by_reply', module=M, props=['C13', 'C01'],
                   'implies(is_type(replies, List[Reply]), forall(result, lambda g: forall(g[1].recipients, lambda r: '
                   '   exists(range(0, len(envelope.recipients)), lambda i: envelope.recipients[i] == r '
                   '          and cast(replies, List[Reply])[i] == g[0]))))',
+                  # the group replies are the caller's reply objects themselves
+                  'implies(is_type(replies, List[Reply]), forall(result, lambda g: '
+                  '   exists(range(0, len(envelope.recipients)), lambda i: same(g[0], cast(replies, List[Reply])[i]))))',
                   'seq(envelope.recipients) == old(seq(envelope.recipients))'],
          modifies=[], locals={'groups': 'List[Tuple[Reply, Envelope]]'},
          loops={0: dict(modifies=['fresh'],
@@ -310,6 +313,49 @@ contract('Queue._split_by_reply', module=M, props=['C13', 'C01'],
                              'forall(range(0, _k), lambda i: implies(trig(i), exists(groups, lambda g: g[0] == replies[i] '
                              '       and envelope.recipients[i] in seq(g[1].recipients))), trigger=lambda i: trig(i))',
                              'forall(groups, lambda g: forall(g[1].recipients, lambda r: '
-                             '   exists(range(0, _k), lambda i: envelope.recipients[i] == r and replies[i] == g[0])))']),
+                             '   exists(range(0, _k), lambda i: envelope.recipients[i] == r and replies[i] == g[0])))',
+                             'forall(groups, lambda g: exists(range(0, _k), lambda i: same(g[0], replies[i])))']),
                 1: dict(modifies=[],
                         inv=['forall(range(0, _k), lambda j: not (replies[i] == groups[j][0]))'])})
+
+# ---------------------------------------------------------------------------- retry / exhaustion
+klass('Backoff')
+extern('Backoff.__call__', params={'self': 'Backoff', 'envelope': 'Envelope', 'attempts': 'Int'},
+       returns='Opt[Real]', notes='backoff(envelope, attempts): any number of seconds or None (C01/C12 quantify over it)')
+klass('Queue', fields={'backoff': 'Backoff'})
+
+predicate('QUEUE_ok(q)', 'INV_timetable(q) and GHOST_ok(q) and q.backoff != None')
+
+contract('Queue._retry_later', module=M, props=['C01', 'C12', 'C13', 'C03'],
+         params={'self': 'Queue', 'id': 'Str', 'envelope': 'Envelope', 'replies': 'Union[Reply, List[Reply]]'},
+         returns='Bool',
+         requires=['QUEUE_ok(self)', 'envelope != None', 'envelope.recipients != None',
+                   'id in self.active_ids', 'id not in self.queued_ids',
+                   'implies(is_type(replies, List[Reply]), '
+                   '  len(cast(replies, List[Reply])) >= len(envelope.recipients) '
+                   '  and forall(cast(replies, List[Reply]), lambda r: r != None and r.message is not None))',
+                   'implies(is_type(replies, Reply), cast(replies, Reply) != None and cast(replies, Reply).message is not None)'],
+         ensures=['INV_timetable(self)',
+                  # retry granted: the message is released and scheduled, with the time stamp that was stored
+                  'implies(result, cast(id, Str) in self.queued_ids and id not in self.active_ids '
+                  '        and len(self.bounces) == old(len(self.bounces)) and id not in self.removed or old(id in self.removed))',
+                  'implies(result and old(id not in self.queued_ids), '
+                  '        exists(self.queued, lambda e: e[1] == id and e[0] == self.store.rs_ts[id]))',
+                  # retries exhausted: removed, and bounced -- never silently dropped
+                  'implies(not result, id in self.removed and id not in self.active_ids)',
+                  'implies(not result and not bool(envelope.sender), len(self.bounces) == old(len(self.bounces)))',
+                  'implies(not result and bool(envelope.sender), forall(range(0, len(envelope.recipients)), lambda i: '
+                  '   implies(trig(i), exists(range(old(len(self.bounces)), len(self.bounces)), lambda b: '
+                  '       envelope.recipients[i] in seq(self.bounces[b][0].recipients) '
+                  '       and self.bounces[b][0].sender == envelope.sender)), trigger=lambda i: trig(i)))',
+                  'forall(range(0, old(len(self.bounces))), lambda j: same(self.bounces[j], old(seq(self.bounces))[j]))'],
+         modifies=['contents(self.queued)', 'contents(self.queued_ids)', 'contents(self.active_ids)',
+                   'self.wake.flag', 'contents(self.removed)', 'contents(self.bounces)',
+                   'self.store.rs_attempts', 'self.store.rs_ts', 'any(Reply).message'],
+         loops={0: dict(modifies=['contents(self.bounces)', 'any(Reply).message'],
+                        inv=['forall(_seq0, lambda g: g[0] != None and g[0].message is not None)',
+                             'implies(not bool(envelope.sender), len(self.bounces) == old(len(self.bounces)))',
+                             'implies(bool(envelope.sender), len(self.bounces) == old(len(self.bounces)) + _k)',
+                             'forall(range(0, _k), lambda j: implies(bool(envelope.sender), '
+                             '       self.bounces[old(len(self.bounces)) + j][0] is _seq0[j][1]))',
+                             'forall(range(0, old(len(self.bounces))), lambda j: same(self.bounces[j], old(seq(self.bounces))[j]))'])})
